@@ -189,7 +189,15 @@ def from_nested(data, dtype=None):
                     require_dim_eq(x, y, "stack-shape")
                 return e.get(tuple(idx[1:]))
             return new_arr((data.length,) + eshape, fn, dtype or probe.dtype)
-        return new_arr((data.length,), lambda idx: r(idx[0]), dtype or "float")
+        if dtype is None:
+            # element type of a symbolic-length python list: that of its element at an arbitrary position
+            pr = r(sv.fresh_int("sq"))
+            if not sv.is_scalar(pr):
+                raise EngineError("np.array of a symbolic-length list of non-scalars")
+            dtype = scalar_dtype(pr)
+            if dtype == "object":
+                raise EngineError("np.array of a symbolic-length list of objects")
+        return new_arr((data.length,), lambda idx: r(idx[0]), dtype)
     if isinstance(data, (list, tuple)):
         items = [from_nested(x) if not sv.is_scalar(x) else x for x in data]
         if all(sv.is_scalar(x) for x in items):
@@ -401,6 +409,11 @@ def _ew_masked(f, operands, dtype=None):
 
 def ew(f, *operands, dtype=None):
     if any(isinstance(o, Masked) for o in operands):
+        if any(isinstance(o, (Arr, list, tuple)) and as_operand(o)[0] != () for o in operands):
+            # a selection combined with an ordinary array: the selection is materialised (rows = selected positions in
+            # increasing order, relational contract of relops.select) and numpy broadcasting applies as usual
+            from .relops import masked_to_arr
+            return ew(f, *[masked_to_arr(o) if isinstance(o, Masked) else o for o in operands], dtype=dtype)
         return _ew_masked(f, operands, dtype)
     ops = [as_operand(o) for o in operands]
     if all(o[0] == () for o in ops) and not any(isinstance(o, Arr) for o in operands):
@@ -1144,6 +1157,18 @@ def reduce_minmax(a, which, axis=None):
     if not isinstance(a, Arr):
         a = from_nested(a)
     if axis is not None:
+        ax = int(norm(axis))
+        if a.ndim == 1 and ax in (0, -1):
+            return reduce_minmax(a, which)
+        if a.ndim == 2 and ax == 0 and dim_conc(a.shape[1]):
+            # column-wise extremum: one 1-D reduction per (concrete) column
+            n, r = a.shape[0], a.reader()
+            if dim_conc(n):
+                cols = [reduce_minmax(getitem(a, (slice(None), k)), which) for k in range(a.shape[1])]
+            else:
+                from .relops import extremum
+                cols = [extremum((lambda t, k=k: r((t, k))), n, which) for k in range(a.shape[1])]
+            return from_nested(cols, a.dtype)
         raise EngineError("min/max with axis")
     shape = a.shape
     if not all(dim_conc(d) for d in shape):
